@@ -174,7 +174,7 @@ def run(ctx):
         return ctx.tlc(S, "MC_BatchLP", "MC_BatchLP.cfg", defines=mc_defs(*nk_cfg.get(d, tiny), clone=(d != "no-clone"), admit=admit),
                        name="mc-noknown-" + d, must_pass=False, count=False, timeout=1200, workers=2)
 
-    live = [(1, 2, 2, 1, 1, 1, 1, False, False)] + ([(2, 1, 2, 1, 1, 1, 1, False, False), (1, 2, 2, 1, 1, 1, 2, True, False)] if thorough else [])
+    live = [(1, 2, 2, 1, 1, 1, 1, False, False)] + ([(2, 1, 2, 1, 1, 1, 1, False, False), (1, 1, 2, 1, 1, 1, 2, True, True)] if thorough else [])
 
     def liveness(c):
         return ctx.tlc(S, "MC_BatchLP", "MC_BatchLP_live.cfg", defines=mc_defs(*c), name="live-" + cfg_name(*c), timeout=6000,
